@@ -32,14 +32,14 @@ def gen_case(rng, nmax=10, tmax=6):
     D = pdist(c)
     maxlag = rng.choice([None, None, 0.5, 0.75, 'median'] + ([float(np.ceil(D.max() / 2))] if len(D) and D.max() > 2 else []))
     return {'coords': c.tolist(), 'values': v, 'x_lags': x_lags, 't_lags': t_lags, 'maxlag': maxlag,
-            'xbins': rng.choice(['even', 'even', 'uniform']), 'tbins': rng.choice(['even', 'even', 'uniform']),
+            'xbins': rng.choice(['even', 'even', 'uniform', 'sturges', 'scott', 'sqrt']), 'tbins': rng.choice(['even', 'even', 'uniform']),
             'estimator': rng.choice(['matheron', 'cressie', 'dowd', 'genton']) if n * T <= 40 else rng.choice(['matheron', 'cressie', 'dowd']),
-            'model': rng.choice(['sum', 'product', 'product-sum']),
+            'model': rng.choice(['sum', 'product', 'product-sum']), 'use_nugget': rng.random() < 0.3,
             'tags': {'points': kind, 'n': n, 'T': T, 'values': vk}}
 
 
 def build(case, **over):
     kw = dict(x_lags=case['x_lags'], t_lags=case['t_lags'], maxlag=case['maxlag'], xbins=case['xbins'], tbins=case['tbins'],
-              estimator=case['estimator'], model=case['model'])
+              estimator=case['estimator'], model=case['model'], use_nugget=bool(case.get('use_nugget', False)))
     kw.update(over)
     return SpaceTimeVariogram(np.array(case['coords'], float), np.array(case['values'], float), **kw)
